@@ -236,8 +236,12 @@ func genKA(seed int64, n int, tier string, w *bufio.Writer) {
 	r := rand.New(rand.NewSource(seed))
 	fmt.Fprintln(w, "ka reset")
 	type scn struct{ k, iv, cnt int; kind string }
+	// deafsub / deafecho: the subject has stopped READING (own outgoing ring full; deafecho: its own processor
+	// parked in it - finding F7, fixed by b77088f); deafflood (thorough): both rings full, the receiver waits for
+	// ring space and no read deadline is armed - open finding F8
 	fixed := []scn{{1, 0, 0, "ping"}, {1, 400, 4, "ping"}, {1, 500, 3, "pub"}, {1, 2100, 2, "ping"}, {2, 900, 3, "pub"}, {1, 900, 3, "ping"},
-		{1, 300, 0, "silentsub"}, {2, 1900, 4, "irr"}, {1, 950, 4, "irr"}}
+		{1, 300, 0, "silentsub"}, {2, 1900, 4, "irr"}, {1, 950, 4, "irr"}, {1, 100, 0, "deafsub"}, {1, 100, 0, "deafecho"},
+		{2, 100, 0, "deafecho"}, {1, 100, 0, "deafflood"}, {2, 150, 0, "deafsub"}}
 	for i := 0; i < n; i++ {
 		var s scn
 		if i < len(fixed) {
@@ -245,11 +249,13 @@ func genKA(seed int64, n int, tier string, w *bufio.Writer) {
 		} else {
 			k := 1 + r.Intn(2)
 			s = scn{k, 100 + r.Intn(k*2600), 1 + r.Intn(3), pick(r, []string{"ping", "pub"})}
-			switch r.Intn(5) {
+			switch r.Intn(6) {
 			case 0:
 				s = scn{k, 100 + r.Intn(600), 0, "silentsub"}
 			case 1:
 				s = scn{k, k*1000 - 50 - r.Intn(k*300), 2 + r.Intn(3), "irr"}
+			case 2:
+				s = scn{k, 100 + r.Intn(200), 0, pick(r, []string{"deafsub", "deafecho"})}
 			}
 		}
 		fmt.Fprintf(w, "ka start %d %d %d %d %s\n", i+1, s.k, s.iv, s.cnt, s.kind)
